@@ -465,6 +465,93 @@ def s(self, tree):
     ctx.analysed(f, g, h)
 
 
+def rule_A(ctx):
+    """Each random arm returns the parent's tree with exactly its edit; the tree summaries that log_p() and the
+    next proposal read (top-level clones, clones, labels, last edited clone and its child count) are the tree's."""
+    prog = ctx.prog
+    ctx.rule("A1", "bootstrap arms: a copy of the parent tree with the data point placed in the drawn clone / in a new clone over the drawn children / in the outlier set", 3)
+    ctx.rule("H1", "tree summaries carried by TreeHolder / Particle are those of the stored tree (top-level clones, clones, labels, last edited clone, its number of children)", 8)
+    cls = "BootstrapProposalDistribution"
+    specs = {
+        "_propose_existing_node": """
+def s(self):
+    node = self._rng.choice(list(self.parent_particle.tree_roots))
+    t = self.parent_tree.copy()
+    t.add_data_point_to_node(self.data_point, node)
+    return t
+""",
+        "_propose_new_node": """
+def s(self):
+    k = self._rng.integers(0, len(self.parent_particle.tree_roots) + 1)
+    children = self._rng.choice(self.parent_particle.tree_roots, k, replace=False)
+    t = self.parent_tree.copy()
+    t.create_root_node(children=children, data=[self.data_point])
+    return t
+""",
+        "_propose_outlier": """
+def s(self):
+    t = self.parent_tree.copy()
+    t.add_data_point_to_outliers(self.data_point)
+    return t
+""",
+    }
+    for name, src in specs.items():
+        f = prog.fn(cls + "." + name)
+        ex = extract(prog, f, **CI)
+        sp = spec(prog, src, f, **CI)
+        same(ctx, "A1", "%s.%s" % (cls, name), f, ex.result, sp.result, "proposed tree")
+        ctx.analysed(f)
+    th = prog.fn("TreeHolder.tree@setter")
+    ex = extract(prog, th)
+    sp = spec(prog, """
+def s(self, tree):
+    self.outlier_node_name = tree.outlier_node_name
+    self.tree_roots = np.asarray(tree.roots)
+    self.tree_nodes = tree.nodes
+    self.labels = tree.labels
+    self.node_last_added_to = tree.node_last_added_to
+    if tree.node_last_added_to != tree.outlier_node_name:
+        self.num_children_on_node_that_matters = tree.get_number_of_children(tree.node_last_added_to)
+    else:
+        self.num_children_on_node_that_matters = 0
+""", th)
+    for a in ("outlier_node_name", "tree_roots", "tree_nodes", "labels", "node_last_added_to", "num_children_on_node_that_matters"):
+        same_store(ctx, "H1", "TreeHolder.tree setter: " + a, th, ex, sp, a)
+    pt = prog.fn("Particle.tree@setter")
+    ex = extract(prog, pt)
+    sp = spec(prog, """
+def s(self, tree):
+    if not isinstance(tree, TreeHolder):
+        tree = TreeHolder(tree, self._tree_dist, self._perm_dist)
+    self.tree_roots = tree.tree_roots.copy()
+    self.tree_nodes = tree.tree_nodes.copy()
+""", pt)
+    for a in ("tree_roots", "tree_nodes"):
+        same_store(ctx, "H1", "Particle.tree setter: " + a, pt, ex, sp, a)
+    pg = prog.fn("Particle.tree@getter")
+    exg = extract(prog, pg)
+    same(ctx, "H1", "Particle.tree rebuilds the tree from its holder", pg, exg.result, spec(prog, "def s(self):\n    return self._tree.tree\n", pg).result, "tree")
+    hg = prog.fn("TreeHolder.tree@getter")
+    exg = extract(prog, hg)
+    same(ctx, "H1", "TreeHolder.tree rebuilds a fresh tree from the dictionary form", hg, exg.result, spec(prog, "def s(self):\n    return Tree.from_dict(self._tree)\n", hg).result, "tree")
+    pi = prog.fn("ProposalDistribution.__init__")
+    exi = extract(prog, pi, opaque_self_methods={"_set_parent_tree"})
+    spi = spec(prog, """
+def s(self, data_point, kernel, parent_particle, outlier_proposal_prob=0.0, parent_tree=None):
+    self.data_point = data_point
+    self.tree_dist = kernel.tree_dist
+    self.perm_dist = kernel.perm_dist
+    self.outlier_proposal_prob = outlier_proposal_prob
+    self.parent_particle = parent_particle
+    self._rng = kernel.rng
+    self._set_parent_tree(parent_tree)
+""", pi, opaque_self_methods={"_set_parent_tree"})
+    for a in ("data_point", "tree_dist", "perm_dist", "outlier_proposal_prob", "parent_particle", "_rng"):
+        same_store(ctx, "H1", "ProposalDistribution.__init__: " + a, pi, exi, spi, a)
+    same_events(ctx, "H1", "ProposalDistribution.__init__ sets the parent tree", pi, exi.calls("._set_parent_tree"), spi.calls("._set_parent_tree"), "_set_parent_tree(parent_tree)")
+    ctx.analysed(th, pt, pg, hg, pi)
+
+
 def rule_X(ctx):
     """Candidates are built on copies / fresh trees, never on the parent's shared object."""
     prog = ctx.prog
@@ -528,6 +615,7 @@ def run(ctx):
     rule_B(ctx)
     rule_S(ctx)
     rule_F(ctx)
+    rule_A(ctx)
     rule_X(ctx)
     # W1: the weights (same rule objects as C01.K1 / K2)
     from . import C01
